@@ -10,9 +10,9 @@ use std::cmp::Ordering;
 
 pub static PROP: Prop = Prop {
     id: "C17",
-    rule: "cases: Value::from(n) for n of every integer type (uniform bit patterns masked to random widths, plus boundary ladders 0, +-1, MIN, MAX, +-2^k+-1 around 2^63 and 2^96), f32/f64 (raw bit patterns incl. subnormal/inf/NaN, integers, decimal fractions, huge magnitudes), String/&str/bool/Decimal/Vec<Value> round trips, integer() on decimals of every scale (integral, boundary, non-integral incl. fractions followed by 1-27 zeros, out of i64) and the exhaustive 6 accessors x 6 variants table. Non-trivial: |n| >= 2^63, a non-integral float, integer() on a number with scale > 0, or an accessor/variant mismatch; distinct by (source kind, magnitude class (bit length), scale, outcome class).",
+    rule: "cases: Value::from(n) for n of every integer type (uniform bit patterns masked to random widths, plus boundary ladders 0, +-1, MIN, MAX, +-2^k+-1 around 2^63 and 2^96), f32/f64 (raw bit patterns incl. subnormal/inf/NaN, integers, decimal fractions, huge magnitudes), every integer-valued float (2^k, 2^k +- ulp) must convert exactly, float() of a decimal must be the correctly rounded f64, String/&str/bool/Decimal/Vec<Value> round trips, integer() on decimals of every scale (integral, boundary, non-integral incl. fractions followed by 1-27 zeros, out of i64) and the exhaustive 6 accessors x 6 variants table. Non-trivial: |n| >= 2^63, a non-integral float, integer() on a number with scale > 0, or an accessor/variant mismatch; distinct by (source kind, magnitude class (bit length), scale, outcome class).",
     assumptions: &[
-        "float conversions are compared with the stated tolerance max(1e-14*|x|, 1e-28) for f64 and max(1e-6*|x|, 1e-28) for f32, exact for integers up to 2^53 / 2^24",
+        "float conversions are compared with the stated tolerance max(1e-14*|x|, 1e-28) for f64 and max(1e-6*|x|, 1e-28) for f32, exact for every integer-valued float below 2^96",
         "Decimal's own mantissa()/scale()/sign accessors are trusted for reading a result",
     ],
     budget,
@@ -196,8 +196,8 @@ fn check_float(x: f64, is32: bool, st: &mut Stats) -> CaseResult {
         }
     };
     let diff = got.sub(&exact).abs();
-    let int_limit = if is32 { 16_777_216.0 } else { 9_007_199_254_740_992.0 };
-    if x.fract() == 0.0 && x.abs() <= int_limit {
+    // every integer-valued float below 2^96 is exactly representable: it must convert exactly
+    if x.fract() == 0.0 {
         if !diff.is_zero() {
             return Err(Failure::new(
                 format!("from-float-integer-inexact:{}", ty),
@@ -328,6 +328,18 @@ fn check_roundtrip(v: &V, st: &mut Stats) -> CaseResult {
             match Value::from(dec).decimal() {
                 Ok(r) if r.mantissa() == dec.mantissa() && r.scale() == dec.scale() => {}
                 other => return fail("decimal", format!("{} -> {:?}", d.to_text(), other.map_err(|e| e.to_string()))),
+            }
+            // float(): the f64 nearest to the decimal (correctly rounded), nothing else
+            let want: f64 = d.to_text().parse().unwrap_or(f64::NAN);
+            match Value::from(dec).float() {
+                Ok(f) if f == want || (f == 0.0 && want == 0.0) => {}
+                other => {
+                    return Err(Failure::new(
+                        "float-accessor-inexact",
+                        format!("float() of {} gave {:?}, the nearest f64 is {:e}", d.to_text(), other.map_err(|e| e.to_string()), want),
+                        case.clone(),
+                    ))
+                }
             }
         }
         V::List(_) => {
@@ -465,6 +477,14 @@ fn fixed(env: &Env, st: &mut Stats) -> CaseResult {
         7.922816251426434e28, 8e28, 1e40, f64::MAX, f64::MIN, f64::INFINITY, f64::NEG_INFINITY, f64::NAN, 9007199254740992.0, 9007199254740993.0,
         16777216.0, 16777217.0, 123456.789, -987654.321e10, 3.4028234663852886e38, 1e15 + 0.3,
     ];
+    let mut floats = floats;
+    for k in 0..=96 {
+        for d in [0.0f64, 1.0, -1.0] {
+            let x = 2f64.powi(k) + d * 2f64.powi((k - 52).max(0));
+            floats.push(x);
+            floats.push(-x);
+        }
+    }
     for (i, x) in floats.into_iter().enumerate() {
         for is32 in [false, true] {
             if !env.mine((i * 2 + is32 as usize) as u64) {
